@@ -10,7 +10,7 @@ from mi_common import est_line, gen_pair, impl_mi, kernel_key, tol
 from vp_common import Atom, Ctx, line, run_driver
 
 PROP = 'C01'
-RULE = ('pairs (Y,X) from one PRNG: n in 1..64 (60%), 65..2000 (35%), few thousands (5%; thorough up to 20000); families '
+RULE = ('pairs (Y,X) from one PRNG: n in 1..64 (60%), 65..1500 (37%), few thousands (3%; thorough up to 20000); families '
         'independent uniform over cardinalities {1,2,3,7,sqrt n,n/2,n}^2, Zipf, constant sides, all-distinct sides, Y=X, Y=perm(X), '
         'Y=f(X), planted signal with flips, singleton strata mixed with large ones, sparse codes < 2^20, equal-sum / equal-histogram pairs. '
         'Non-trivial = both sides non-constant; distinct = distinct joint partition structure (first-occurrence relabeling of the zipped pair).')
@@ -66,7 +66,7 @@ def corpus():
 
 
 def run(ctx: Ctx):
-    n = 12000 if ctx.thorough() else 900
+    n = 6000 if ctx.thorough() else 900
     evaluate(ctx, corpus() + [gen_pair(ctx.rng, ctx.thorough()) for _ in range(n)])
 
 
